@@ -14,11 +14,15 @@ ALLCFG = ["default", "flushy", "flushy2", "manual", "bigvals", "valsep", "valsep
 PROPS = {
     # profile, checked classes, generator classes, iterator class for generated scripts
     "C01": dict(profile="C01", checked=["latest"], gen=["pt", "rk", "mt", "ig"], itercls="pos",
+                exh=dict(quick=[(["pt", "rk", "ig", "mt"], 3, (1, 1), 2)],
+                         thorough=[(["pt", "rk", "ig", "mt"], 3, (1, 1), 3), (["pt", "mt"], 4, (1, 1), 2), (["pt", "mt"], 3, (1, 2), 2)]),
                 quick_cfgs=["default", "flushy", "manual", "bigvals", "oldfmv", "nolazy", "ext"]),
     # 2 prefixes x (bare + 5 suffixes): long version chains per prefix, so that a prefix straddles table boundaries
     "C02": dict(profile="C02", checked=["pos"], gen=["pt", "rk", "it", "it", "mt"], itercls="pos", masks=True, univ=(2, 5),
                 quick_cfgs=["default", "flushy", "manual", "nolazy", "valsep", "bigvals"]),
     "C03": dict(profile="C03", checked=["snap"], gen=["pt", "rk", "mt", "sn", "ig"], itercls="snap",
+                exh=dict(quick=[(["pt", "mt", "sn", "ig"], 3, (1, 1), 2)],
+                         thorough=[(["pt", "mt", "sn", "ig"], 3, (1, 1), 3), (["pt", "mt", "sn"], 4, (1, 1), 2)]),
                 quick_cfgs=["default", "flushy", "flushy2", "manual", "valsep", "oldfmv"]),
     "C04": dict(profile="C04", checked=["view"], gen=["pt", "rk", "mt", "it", "ig"], itercls="view",
                 quick_cfgs=["default", "flushy", "flushy2", "manual", "nolazy"]),
@@ -29,6 +33,8 @@ PROPS = {
     "C09": dict(profile="C09", checked=["mask"], gen=["rk", "pt", "it", "it", "mt"], itercls="mask", masks=True,
                 quick_cfgs=["default", "flushy", "flushy2", "manual", "nolazy", "ext", "extman"]),
     "C14": dict(profile="C14", checked=["latest", "snap", "view", "efos"], gen=["pt", "rk", "mt", "mt", "sn", "it"], itercls="view",
+                exh=dict(quick=[(["pt", "rk", "mt", "sn"], 3, (1, 1), 2)],
+                         thorough=[(["pt", "rk", "mt", "sn"], 3, (1, 1), 3), (["pt", "rk", "mt"], 4, (1, 1), 1)]),
                 quick_cfgs=["flushy", "flushy2", "manual", "valsep", "bigvals", "oldfmv"]),
     "C36": dict(profile="C36", checked=["latest", "view"], gen=["ig", "ig", "pt", "rk", "it", "mt"], itercls="view",
                 quick_cfgs=["default", "flushy", "flushy2", "manual", "nolazy", "ext"]),
@@ -105,6 +111,51 @@ def gen_scripts(run, classes, itercls, masks, walks, maxlen, seed, out_path, per
     run.design["KVGen/simulate"] = dict(walks=walks, behaviours=n, generated=r.generated, wall_s=round(r.wall, 1))
     run.transitions += r.generated
     return n
+
+
+def gen_scripts_exh(run, classes, maxlen, out_path):
+    """every history of exactly maxlen calls over the (tiny) universe in force, by exhaustive TLC search"""
+    cfg = gen_cfg(classes, "view", False, maxlen, maxsnaps=1, maxiters=0)
+    r = vlib.tlc(SPECDIR, "KVGen", "KVExhRun.cfg", workers=1, timeout=3000, extra_files={"KVExhRun.cfg": cfg}, heap="10g")
+    if r.timed_out or not r.ok:
+        raise vlib.Inconclusive("KVGen exhaustive enumeration failed (%s)\n%s" % (r.violation, r.out[-2000:]))
+    n = 0
+    with open(out_path, "w") as o:
+        for l in r.out.splitlines():
+            if l.startswith('"['):
+                o.write(json.dumps(json.loads(json.loads(l))) + "\n")
+                n += 1
+    if n == 0:
+        raise vlib.Inconclusive("exhaustive enumeration produced no behaviour")
+    run.design["KVGen/exhaustive(P=%d,S=%d,len=%d,%s)" % (UNIV[0], UNIV[1], maxlen, "+".join(sorted(classes)))] = dict(
+        behaviours=n, distinct=r.distinct, wall_s=round(r.wall, 1))
+    run.transitions += r.generated
+    return n
+
+
+def run_exh(run, pp, binp, checked):
+    """small-scope exhaustive mode A: EVERY call history up to a length over a tiny key universe is replayed on
+    the real DB (under rotating configurations) and the recorded traces are validated by KVTrace"""
+    save = list(UNIV)
+    total = 0
+    try:
+        for classes, maxlen, univ, ncfg in pp["exh"]["quick" if run.tier == "quick" else "thorough"]:
+            UNIV[0], UNIV[1] = univ
+            tdir = vlib.scratch("verif.kvexh.")
+            sf = os.path.join(tdir, "scripts.jsonl")
+            n = gen_scripts_exh(run, classes, maxlen, sf)
+            env = dict(VERIF_OUT=tdir, VERIF_PROFILE=pp["profile"], VERIF_SEED=str(run.seed), VERIF_P=str(univ[0]), VERIF_S=str(univ[1]),
+                       VERIF_CONFIGS="flushy,manual,default,flushy2,oldfmv", VERIF_SCRIPTFILE=sf, VERIF_SCRIPT_NCFG=str(ncfg))
+            rc, out = vlib.run_driver(binp, "TestScript", env=env, timeout=3400)
+            if "DRIVER-DONE" not in out:
+                raise vlib.Inconclusive("dbdrv TestScript (exhaustive) died:\n" + out[-3000:])
+            files = sorted(glob.glob(os.path.join(tdir, "S-*.ndjson")))
+            ev, rej = validate_files(run, files, checked, run.prop + "-exh")
+            total += n
+            shutil.rmtree(tdir, ignore_errors=True)
+    finally:
+        UNIV[0], UNIV[1] = save
+    run.cov["exhaustive_small_scope_histories_replayed"] = total
 
 
 def attribute(ev, checked):
@@ -318,6 +369,8 @@ def run_kv(run, prop=None):
     events, rejected = validate_files(run, files, checked, prop)
     if rejected == 0:
         binding_demo(run, files, checked)
+    if pp.get("exh"):
+        run_exh(run, pp, binp, checked)
     evals, distinct = stats(files, checked)
     run.cov["evaluations"] = evals
     run.cov["distinct_nontrivial"] = distinct
